@@ -490,13 +490,32 @@ func TestVerifReplay(t *testing.T) {
 	// an unrecovered panic or a runtime fatal error of the real code under the model's values
 	for _, line := range strings.Split(out, "\n") {
 		if strings.HasPrefix(line, "panic: ") || strings.HasPrefix(line, "fatal error: ") {
-			where := ""
-			for _, l2 := range strings.Split(out, "\n") {
+			// the crash belongs to the real code only if the innermost non-runtime frame of the
+			// crashing goroutine (the first stack printed) is a file of the repository itself - a
+			// crash inside the harness or the replay runtime is an infrastructure error
+			where, harnessFrame := "", ""
+			seen := false
+			for _, l2 := range strings.Split(out[strings.Index(out, line):], "\n") {
 				l2 = strings.TrimSpace(l2)
-				if strings.HasPrefix(l2, repoDir+"/") && !strings.Contains(l2, "/zzverif/") && !strings.Contains(l2, "zz_verif_") {
-					where = l2
-					break
+				if seen && l2 == "" {
+					break // end of the first goroutine's stack
 				}
+				if !strings.HasPrefix(l2, "/") {
+					continue
+				}
+				seen = true
+				if !strings.HasPrefix(l2, repoDir+"/") {
+					continue // Go runtime, standard library, dependencies
+				}
+				if strings.Contains(l2, "/zzverif/") || strings.Contains(l2, "zz_verif_") {
+					harnessFrame = l2
+				} else {
+					where = l2
+				}
+				break
+			}
+			if where == "" {
+				return "error", "native replay crashed outside the code under test (" + line + " at " + harnessFrame + ")"
 			}
 			return "crashed", line + " at " + where
 		}
